@@ -6,4 +6,5 @@ HARNESSES = [
     dict(name='store', need_schema=True, extra_flags=['-ldl']),
     dict(name='rot', need_lib=True),
     dict(name='codec', need_schema=True),
+    dict(name='timer', need_lib=True, extra_flags=['-ldl']),
 ]
